@@ -9,6 +9,8 @@ import sys
 
 sys.path.insert(0, os.environ.get('PENMAN_SRC', '/repo'))
 sys.dont_write_bytecode = True
+import logging  # noqa: E402
+logging.disable(logging.CRITICAL)
 import penman  # noqa: E402
 from penman import _lexer, layout, transform, surface, constant  # noqa: E402
 from penman.graph import Graph  # noqa: E402
@@ -237,3 +239,227 @@ def tr_quote(s):
 def tr_eval(s):
     k, txt = _evalkind(s)
     return {'kind': 'eval', 's': s, 'ekind': k, 'type': _typename(s), 'same': (k != 'str') or txt == s or s.startswith('"')}
+
+
+# ===================================================================== models
+import json as _json  # noqa: E402
+import random as _random  # noqa: E402
+from penman.model import Model  # noqa: E402
+from penman.models import amr as _amr, noop as _noop  # noqa: E402
+from penman.exceptions import LayoutError  # noqa: E402
+
+_SPEC = os.path.join(os.path.dirname(os.path.dirname(os.path.abspath(__file__))), 'spec')
+with open(os.path.join(_SPEC, 'models.json')) as _f:
+    RAW_MODELS = _json.load(_f)
+
+
+def model_from_raw(raw):
+    roles = {}
+    for lit in raw['lits']:
+        roles[lit] = {}
+    for prefix, mult in raw['pats']:
+        roles[prefix + ('[0-9]+' if mult == 'many' else '[0-9]')] = {}
+    kw = dict(roles=roles, normalizations={k: v for k, v in raw['norm']},
+              reifications=[tuple(x) for x in raw['reifs']])
+    if raw.get('noop'):
+        return _noop.NoOpModel(**kw)
+    return Model(**kw)
+
+
+_MODEL_CACHE = {}
+
+
+def get_model(name, mdl=None):
+    if name == 'custom':
+        return model_from_raw(mdl)
+    if name not in _MODEL_CACHE:
+        _MODEL_CACHE[name] = {'default': Model(), 'amr': _amr.model, 'noop': _noop.model}.get(name) or model_from_raw(RAW_MODELS[name])
+    return _MODEL_CACHE[name]
+
+
+def _mfields(t, model, mdl):
+    t['model'] = model
+    if model == 'custom':
+        t['mdl'] = mdl
+    return t
+
+
+def _exc_out(e):
+    return {'ok': False, 'exc': 'Hang' if isinstance(e, Hang) else excname(e)}
+
+
+# ========================================================== interpret (C04)
+def tr_interpret(node, meta=None, model='default', mdl=None):
+    node = to_node(node)
+    m = get_model(model, mdl)
+    t = _mfields({'kind': 'interpret', 'tree': ab.check_tree_roundtrip(node, meta)}, model, mdl)
+    ok, g = guarded(layout.interpret, Tree(node, metadata=dict(meta or {})), m)
+    if not ok:
+        t['out'] = _exc_out(g)
+        return t
+    out = {'ok': True, 'exc': '', 'g': ab.graph_to_json(g), 'vars': sorted(ab.atom(v) for v in g.variables())}
+    ok1, a1 = guarded(surface.alignments, g)
+    ok2, a2 = guarded(surface.role_alignments, g)
+    if not (ok1 and ok2):
+        t['out'] = _exc_out(a1 if not ok1 else a2)
+        return t
+    out['alns'] = [[ab.triple(k), str(v)[1:]] for k, v in a1.items()]
+    out['ralns'] = [[ab.triple(k), str(v)[1:]] for k, v in a2.items()]
+    t['out'] = out
+    return t
+
+
+# ========================================================== round trip (C02)
+def tr_roundtrip(node, meta=None, model='default', mdl=None):
+    node = to_node(node)
+    m = get_model(model, mdl)
+    tree = Tree(node, metadata=dict(meta or {}))
+    t = _mfields({'kind': 'roundtrip', 'tree': ab.check_tree_roundtrip(node, meta)}, model, mdl)
+    t['t2'] = {'ok': False, 'exc': 'not run'}
+    t['enc'] = {'ok': False, 'exc': 'not run'}
+    ok, g = guarded(layout.interpret, tree, m)
+    if not ok:
+        t['t2'] = _exc_out(g)
+        return t
+    ok, t2 = guarded(layout.configure, g, model=m)
+    t['t2'] = {'ok': True, 'exc': '', 'tree': ab.tree_to_json(t2)} if ok else _exc_out(t2)
+    ok, text = guarded(penman.format, tree, indent=None)
+    if ok:
+        codec = penman.PENMANCodec(model=m)
+        ok, enc = guarded(lambda: codec.encode(codec.decode(text)))
+        t['enc'] = {'ok': True, 'exc': '', 'text': enc} if ok else _exc_out(enc)
+    else:
+        t['enc'] = _exc_out(text)
+    return t
+
+
+# ================================================= encode / reconfigure (C03 C05 C06)
+def build_graph(tr, epi=None, xtop=None, meta=None):
+    """tr: [[src, role, tgt]] with JSON-typed targets; epi: list (aligned with tr) of marker dict lists."""
+    triples = [(a, b, c) for a, b, c in tr]
+    epidata = {}
+    if epi:
+        for t_, ms in zip(triples, epi):
+            if ms is None:
+                continue
+            lst = []
+            for mk in ms:
+                if mk['m'] == 'push':
+                    lst.append(layout.Push(mk['v']))
+                elif mk['m'] == 'pop':
+                    lst.append(layout.POP)
+                elif mk['m'] == 'align':
+                    lst.append(surface.Alignment.from_string(mk['v']))
+                elif mk['m'] == 'ralign':
+                    lst.append(surface.RoleAlignment.from_string(mk['v']))
+            epidata[t_] = lst
+    g = Graph(triples, top=None, epidata=epidata, metadata=dict(meta or {}))
+    g._top = xtop       # an explicit top, possibly one that the setter would refuse (O11)
+    return g
+
+
+KEYS = {'none': None, 'original': 'original_order', 'alphanumeric': 'alphanumeric_order',
+        'canonical': 'canonical_order', 'random': 'random_order', 'inverted-last': 'is_role_inverted'}
+
+
+def key_fn(m, key, seed=0):
+    if key == 'none':
+        return None
+    if key == 'random':
+        _random.seed(seed)
+    return getattr(m, KEYS[key])
+
+
+def tr_encode(tr, epi=None, xtop=None, topreq=None, model='default', mdl=None, op='configure', key='none', seed=0):
+    m = get_model(model, mdl)
+    g = build_graph(tr, epi, xtop)
+    before = ab.graph_to_json(g)
+    t = _mfields({'kind': 'encode', 'g': before, 'topreq': ab.atom(topreq), 'op': op, 'key': key}, model, mdl)
+    if op == 'configure':
+        ok, tree = guarded(layout.configure, g, top=topreq, model=m)
+    else:
+        ok, tree = guarded(layout.reconfigure, g, top=topreq, model=m, key=key_fn(m, key, seed))
+    t['unchanged'] = ab.graph_to_json(g) == before
+    if not ok:
+        t['out'] = _exc_out(tree)
+        return t
+    out = {'ok': True, 'exc': '', 'tree': ab.tree_to_json(tree), 'text': '', 're': {'ok': False, 'exc': 'not run'},
+           'g2': {'top': ab.NULL, 'tr': []}}
+    ok, text = guarded(penman.format, tree, indent=None)
+    if ok:
+        out['text'] = text
+        ok, re_ = guarded(penman.parse, text)
+        if ok:
+            out['re'] = {'ok': True, 'exc': '', 'tree': ab.tree_to_json(re_)}
+            ok, g2 = guarded(layout.interpret, re_, m)
+            if ok:
+                out['g2'] = {'top': ab.atom(g2.top), 'tr': [ab.triple(x) for x in g2.triples]}
+        else:
+            out['re'] = _decode_err(re_, {'ok': False, 'exc': ''})
+    t['out'] = out
+    return t
+
+
+# ============================================================ rearrange (C05)
+def tr_rearrange(node, meta=None, key='none', af=False, model='default', mdl=None, seed=0):
+    node = to_node(node)
+    m = get_model(model, mdl)
+    t = _mfields({'kind': 'rearrange', 'tree': ab.check_tree_roundtrip(node, meta), 'key': key, 'af': bool(af), 'exc': ''}, model, mdl)
+    import copy
+    tree = Tree(copy.deepcopy(node), metadata=dict(meta or {}))
+    ok, r = guarded(layout.rearrange, tree, key=key_fn(m, key, seed), attributes_first=af)
+    if not ok:
+        t['exc'] = 'Hang' if isinstance(r, Hang) else excname(r)
+        t['after'] = t['tree']
+    else:
+        t['after'] = ab.tree_to_json(tree)
+    return t
+
+
+# ========================================================== diagnostics (C14)
+def _diag(g):
+    ctx = [ab.atom(x) for x in layout.node_contexts(g)]
+    pushed = [ab.atom(layout.get_pushed_variable(g, x)) for x in g.triples]
+    inv = [bool(layout.appears_inverted(g, x)) for x in g.triples]
+    return ctx, pushed, inv
+
+
+def tr_diag(node, meta=None, model='default', mdl=None):
+    node = to_node(node)
+    m = get_model(model, mdl)
+    t = _mfields({'kind': 'diag', 'tree': ab.check_tree_roundtrip(node, meta), 'exc': '', 'ctx': [], 'pushed': [], 'inv': [],
+                  'tr': [], 'bare': {'exc': 'not run', 'ctx': [], 'pushed': [], 'inv': []}}, model, mdl)
+    ok, g = guarded(layout.interpret, Tree(node, metadata=dict(meta or {})), m)
+    if not ok:
+        t['exc'] = 'interpret:' + excname(g)
+        return t
+    t['tr'] = [ab.triple(x) for x in g.triples]
+    ok, r = guarded(_diag, g)
+    if not ok:
+        t['exc'] = 'Hang' if isinstance(r, Hang) else excname(r)
+        return t
+    t['ctx'], t['pushed'], t['inv'] = r
+    bare = Graph(list(g.triples), top=g.top)
+    ok, r = guarded(_diag, bare)
+    if ok:
+        t['bare'] = {'exc': '', 'ctx': r[0], 'pushed': r[1], 'inv': r[2]}
+    else:
+        t['bare'] = {'exc': 'Hang' if isinstance(r, Hang) else excname(r), 'ctx': [], 'pushed': [], 'inv': []}
+    return t
+
+
+# ============================================================== relabel (C10)
+def tr_relabel(node, meta=None, fmt=('{prefix}', '{j}'), model='default', mdl=None, timeout=2.0):
+    global CALL_TIMEOUT
+    node = to_node(node)
+    import copy
+    t = _mfields({'kind': 'relabel', 'tree': ab.check_tree_roundtrip(node, meta), 'fmt': list(fmt)}, model, mdl)
+    tree = Tree(copy.deepcopy(node), metadata=dict(meta or {}))
+    old = CALL_TIMEOUT
+    CALL_TIMEOUT = timeout
+    try:
+        ok, r = guarded(tree.reset_variables, ''.join(fmt))
+    finally:
+        CALL_TIMEOUT = old
+    t['out'] = {'ok': True, 'exc': '', 'tree': ab.tree_to_json(tree)} if ok else _exc_out(r)
+    return t
